@@ -6144,7 +6144,25 @@ func (t *Terminal) Loop() error {
 		t.mutex.Unlock() // Must be unlocked before touching reqBox
 
 		if reload {
-			t.eventBox.Set(EvtSearchNew, *reloadRequest)
+			t.eventBox.Update(EvtSearchNew, func(pending any) any {
+				// Do not lose the one-shot payload (command, nth, denylist) of a
+				// request that has not been consumed yet
+				if prev, ok := pending.(searchRequest); ok {
+					if reloadRequest.nth == nil {
+						reloadRequest.nth = prev.nth
+					}
+					if reloadRequest.command == nil && prev.command != nil {
+						reloadRequest.command = prev.command
+						reloadRequest.sync = prev.sync
+						reloadRequest.environ = prev.environ
+					}
+					if len(prev.denylist) > 0 && prev.revision.compatible(reloadRequest.revision) {
+						reloadRequest.denylist = append(prev.denylist, reloadRequest.denylist...)
+					}
+					reloadRequest.changed = reloadRequest.changed || prev.changed
+				}
+				return *reloadRequest
+			})
 		}
 		for _, event := range events {
 			t.reqBox.Set(event, nil)
